@@ -147,3 +147,28 @@ func TestC03Sweep(t *testing.T) { RunEnum(t, "C03", "mask-carry-sweep", enumMask
 func TestC20Conc(t *testing.T) {
 	RunProp(t, "C20", "pool-concurrent", func(rt *rapid.T) PoolCase { c := genPoolCase(rt); c.Conc = true; return c }, checkC20)
 }
+
+// fuzzRapid exposes a rapid property to the native coverage-guided fuzzer
+// (thorough tier): the fuzzer mutates rapid's bit stream, so inputs stay
+// structurally valid cases.  Failing cases are written as JSON like everywhere.
+func fuzzRapid[C any](f *testing.F, id, part, test string, gen func(*rapid.T) C, check func(C, *Obs) error) {
+	f.Fuzz(rapid.MakeFuzz(func(t *rapid.T) {
+		c := gen(t)
+		js, _ := json.Marshal(c)
+		watchdogCtx.id, watchdogCtx.part, watchdogCtx.test, watchdogCtx.caseJSON = id, part, test, js
+		if err := safeCheck(check, c, &Obs{}); err != nil {
+			writeFail(id, part, test, js, err)
+			t.Fatalf("%v", err)
+		}
+	}))
+}
+
+func FuzzC01(f *testing.F)     { fuzzRapid(f, "C01", "fuzz-roundtrip", "TestC01", genWireCase, checkC01) }
+func FuzzC02(f *testing.F)     { fuzzRapid(f, "C02", "fuzz-wire", "TestC02", genWireCase, checkC02) }
+func FuzzC03(f *testing.F)     { fuzzRapid(f, "C03", "fuzz-decode", "TestC03", genReadCase, checkC03) }
+func FuzzC04Hist(f *testing.F) { fuzzRapid(f, "C04", "fuzz-history", "TestC04Hist", genHistCase, checkC04Hist) }
+func FuzzC06(f *testing.F)     { fuzzRapid(f, "C06", "fuzz-limit", "TestC06", genLimitCase, checkC06) }
+func FuzzC08(f *testing.F)     { fuzzRapid(f, "C08", "fuzz-control", "TestC08", genCtlCase, checkC08) }
+func FuzzC12(f *testing.F)     { fuzzRapid(f, "C12", "fuzz-serverhandshake", "TestC12", genServerHSCase, checkC12) }
+func FuzzC13(f *testing.F)     { fuzzRapid(f, "C13", "fuzz-origin", "TestC13", genOriginCase, checkC13) }
+func FuzzC14(f *testing.F)     { fuzzRapid(f, "C14", "fuzz-clienthandshake", "TestC14", genClientHSCase, checkC14) }
